@@ -1435,6 +1435,9 @@ func (e *SpecEnv) callPureVals(x *spec.Call, f *ssa.Function, args []Val) Val {
 			env.results = results
 			env.resultNames = resultNames(f, sp)
 			for _, en := range sp.Ensures {
+				if en.Local {
+					continue // about the callee's own variables: not part of what callers may assume
+				}
 				vc.fact(env.compileBool(en.Expr))
 			}
 		} else {
